@@ -121,8 +121,10 @@ ATTR_SHAPES = [  # (outer container, inner container, leaf, which container carr
     ("section", "div", "word", 2),
     ("table1", "div", "table", 2),     # a scrollable div inside a cell that itself holds a nested table
     ("div", "table1", "table", 2),     # a table with symbolic attributes whose cell holds a nested table
+    ("div", "table1", "table", 1),     # a div with symbolic attributes around a table whose cell holds a nested table
+    ("div", "center", "table", 1),     # a div with symbolic attributes around a table wrapped in another element
 ]
-QUICK_ATTR_SHAPES = [0, 1, 3, 4, 5, 6, 7, 8, 9, 10, 11, 18, 19]
+QUICK_ATTR_SHAPES = [0, 1, 3, 4, 5, 6, 7, 8, 9, 10, 11, 18, 19, 20, 21]
 QUICK_LENGTH_SHAPES = [0, 3, 4, 5, 6, 18, 19]  # passes that scale lengths are the slow ones: fewer documents in the quick tier
 
 
